@@ -22,6 +22,13 @@ type GenSpec struct {
 	// class and all positions in which the printed tree carries a type. When false the generator
 	// draws exactly the random numbers it drew before the family existed.
 	Data bool `json:"data,omitempty"`
+	// Lit: the literal family is switched on (lit.go): integer literals over the whole range the
+	// property calls far from the overflow boundary (up to 2^46: even multiplied by the largest
+	// constant the transformer uses they stay 25x below 2^63), and string literals / quoted field
+	// names whose VALUE holds characters of every class the lexer can produce from an escape
+	// sequence (control characters, DEL, Latin-1, BMP, astral). When false the generator draws
+	// exactly the random numbers it drew before the family existed.
+	Lit bool `json:"lit,omitempty"`
 }
 
 // feat says which constructs outside the currently reliable fragment may be generated.
@@ -154,6 +161,8 @@ type gen struct {
 	data      bool
 	shapes    []*shape
 	constOnly int // > 0: only literals (initialisers of globals)
+	// the literal family (lit.go)
+	lit bool
 }
 
 func (g *gen) emit(format string, a ...any) {
@@ -205,6 +214,9 @@ func (g *gen) pickVar(pred func(*gv) bool) *gv {
 // ---------------------------------------------------------------------------------------------
 
 func (g *gen) intLit() ex {
+	if g.lit && g.r.Chance(1, 2) {
+		return g.wideIntLit()
+	}
 	var n int
 	switch g.r.Intn(12) {
 	case 0:
@@ -447,6 +459,9 @@ func (g *gen) strExpr(d int) ex {
 	if g.data {
 		// text that the printer has to escape (written here the way the source spells it), non-ASCII, empty
 		words = append(words, `q\"t`, `tab\tx`, `two\nl`, `b\\s`, "ä", "")
+	}
+	if g.lit && g.r.Chance(1, 2) {
+		return ex{s: g.escStrLit(), p: pAtom}
 	}
 	if g.constOnly > 0 {
 		return ex{s: `"` + words[g.r.Intn(len(words))] + `"`, p: pAtom}
@@ -1192,7 +1207,7 @@ func (g *gen) function(idx int) {
 // Source generates the program text.
 func (s *GenSpec) Source() string {
 	f, force := features(s.Mode)
-	g := &gen{r: fw.NewRng(s.Seed), f: f, force: force, focus: s.Focus, ret: "-", budget: 4 * s.Size, data: s.Data}
+	g := &gen{r: fw.NewRng(s.Seed), f: f, force: force, focus: s.Focus, ret: "-", budget: 4 * s.Size, data: s.Data, lit: s.Lit}
 	if f.identCapture {
 		g.capPool = []string{"mul_count", "count_once", "_i", "lhs_init", "mul_res"}
 		// shuffle deterministically
@@ -1257,6 +1272,9 @@ func (s *GenSpec) Source() string {
 	if g.data {
 		g.objFunctions()
 	}
+	if g.lit {
+		g.litFunctions()
+	}
 	nf := 1 + g.r.Intn(3)
 	for i := 0; i < nf; i++ {
 		g.function(i)
@@ -1267,6 +1285,9 @@ func (s *GenSpec) Source() string {
 	g.emit(`println("start");`)
 	if useTrigger {
 		g.emit("trigger on_minute on minute(%d);", 1+g.r.Intn(9))
+	}
+	if g.lit {
+		g.litPrelude()
 	}
 	for i := 0; i < s.Size; i++ {
 		g.stmt(3)
@@ -1331,10 +1352,10 @@ func (g *gen) forced() {
 
 // genCases builds the generated part of the workload.
 func genCases(tier string, seed uint64) []fw.Case {
-	nMain, nFocus, nData, nPoison, nSeeds := 260, 40, 70, 24, 8
+	nMain, nFocus, nData, nPoison, nSeeds, nLit := 260, 40, 70, 24, 8, 48
 	passes := []int{1, 2, 3}
 	if tier == "thorough" {
-		nMain, nFocus, nData, nPoison, nSeeds = 1500, 240, 300, 60, 24
+		nMain, nFocus, nData, nPoison, nSeeds, nLit = 1500, 240, 300, 60, 24, 200
 		passes = []int{1, 2, 3, 5}
 	}
 	r := fw.NewRng(seed ^ 0xC20)
@@ -1345,6 +1366,9 @@ func genCases(tier string, seed uint64) []fw.Case {
 			if focus == "data" {
 				spec.Focus, spec.Data = "", true
 				spec.Size = 4 + r.Intn(9)
+			} else if focus == "lit" {
+				spec.Focus, spec.Data, spec.Lit = "", true, true
+				spec.Size = 3 + r.Intn(7)
 			} else if focus != "" {
 				spec.Size = 3 + r.Intn(6)
 			}
@@ -1409,6 +1433,13 @@ func genCases(tier string, seed uint64) []fw.Case {
 	r = fw.NewRng(seed ^ 0xDA7A20)
 	for i := 0; i < nData; i++ {
 		mk(fmt.Sprintf("c20-data-%d", i), "gen", "main", "data", "")
+	}
+	// the literal population (lit.go): the data mix plus integer literals of every magnitude the
+	// property admits and strings / field names written with every class of escape sequence. Own
+	// random stream, generated last, so that the older populations stay what they were.
+	r = fw.NewRng(seed ^ 0x11720)
+	for i := 0; i < nLit; i++ {
+		mk(fmt.Sprintf("c20-lit-%d", i), "gen", "main", "lit", "")
 	}
 	return cases
 }
